@@ -291,6 +291,13 @@ psRes_t psX509ParseCertData(psPool_t *pool,
             psFreeList(certDatas, pool);
             return err;
         }
+        if (current == NULL)
+        {
+            /* Not even the certificate structure could be allocated:
+               there is nothing to link, partial parse allowed or not. */
+            psFreeList(certDatas, pool);
+            return err < 0 ? err : PS_MEM_FAIL;
+        }
         numParsed++;
         *tailp = current;
         tailp = &(current->next);
